@@ -61,9 +61,9 @@ WirePage == {
   <<"ch_te_capital", "none", "none">>, <<"ch_zero_only", "none", "none">>,
   \* content codings
   <<"gz_corrupt_header", "h_decompress", "ZlibError">>, <<"gz_corrupt_body", "h_decompress", "ZlibError">>,
-  <<"gz_truncated", "none", "none">>, <<"gz_trailing_garbage", "none", "none">>, <<"gz_empty", "none", "none">>,
+  <<"gz_truncated", "h_flush", "ZlibError">>, <<"gz_trailing_garbage", "none", "none">>, <<"gz_empty", "none", "none">>,
   <<"gz_not_gzip", "none", "none">>, <<"gz_bomb_small", "none", "none">>, <<"gz_chunked_corrupt", "h_decompress", "ZlibError">>,
-  <<"df_corrupt", "h_decompress", "ZlibError">>, <<"df_truncated", "none", "none">>, <<"df_raw", "none", "none">>,
+  <<"df_corrupt", "h_decompress", "ZlibError">>, <<"df_truncated", "h_flush", "ZlibError">>, <<"df_raw", "none", "none">>,
   <<"enc_unknown", "none", "none">>,
   \* whole response
   <<"ms_empty_response", "h_hdr_readline", "NetworkError">>, <<"ms_only_crlf", "h_status_parse", "ProtocolError">>,
